@@ -1,3 +1,253 @@
-From Coq Require Import ZArith List.
-From PV Require Import Base.U64 C12.C12_Model.
-Lemma placeholder : True. Proof. exact I. Qed.
+(* C12_Proofs.v — lemmas and proofs for the C12 properties. *)
+From Coq Require Import ZArith List Bool Lia.
+From PV Require Import Base.U64 C12.C12_Model C12.C12_Mem.
+Import ListNotations.
+Local Open Scope Z_scope.
+
+Definition cfg_shipped : cfg := mkCfg false false false false false.
+Definition mem_wf (m : mem) : Prop := Forall (fun L => L <= STRIDE) (lens m).
+
+Lemma nth_z_In {A} (l : list A) i x : nth_z l i = Some x -> In x l.
+Proof. unfold nth_z. destruct ((i <? 0) || (len l <=? i)); [discriminate|]. apply nth_error_In. Qed.
+
+(* a valid range lies inside one region of a well-formed memory *)
+Lemma validb_fits ls a n : Forall (fun L => L <= STRIDE) ls -> validb ls a n = true -> 0 < n ->
+  ARENA <= a /\ (a - ARENA) mod STRIDE + n <= STRIDE.
+Proof.
+  unfold validb. intros Hwf H Hn. destruct (n <=? 0) eqn:E; [apply Z.leb_le in E; lia|].
+  destruct (a <? ARENA) eqn:HA; [discriminate|]. apply Z.ltb_ge in HA.
+  destruct (nth_z ls ((a - ARENA) / STRIDE)) as [L|] eqn:HL; [|discriminate].
+  apply Z.leb_le in H. apply nth_z_In in HL. rewrite Forall_forall in Hwf. specialize (Hwf _ HL). lia.
+Qed.
+
+Lemma validb_sub' ls a n a' n' : Forall (fun L => L <= STRIDE) ls -> validb ls a n = true ->
+  a <= a' -> a' + n' <= a + n -> validb ls a' n' = true.
+Proof.
+  intros Hwf H Ha Hb. destruct (Z_le_gt_dec n' 0) as [Hn'|Hn'].
+  - unfold validb. apply Z.leb_le in Hn'. rewrite Hn'. reflexivity.
+  - assert (0 < n) by lia. destruct (validb_fits _ _ _ Hwf H ltac:(lia)) as [_ Hs].
+    eapply validb_sub; eauto; lia.
+Qed.
+
+(* ------------------------------------------------------------------------------
+   slice::anchor and string::sv (repaired code)
+   ------------------------------------------------------------------------------ *)
+Lemma signed64_nonneg x : 0 <= x < W64 -> (signed64 x <? 0) = false -> signed64 x = x /\ x < 9223372036854775808.
+Proof.
+  unfold signed64, W64. intros Hx. destruct (x <? 9223372036854775808) eqn:E.
+  - apply Z.ltb_lt in E. intros _. lia.
+  - apply Z.ltb_ge in E. intros H. apply Z.ltb_ge in H. lia.
+Qed.
+
+(* the string returned by the repaired anchor is empty or a sub-range of the base buffer *)
+Lemma anchor_in_bounds off length bp bn p n :
+  0 <= off < W64 -> 0 <= length < W64 -> 0 <= bp -> 0 <= bn -> bp + bn < W64 ->
+  anchor cfg_final off length bp bn = (p, n) ->
+  (p = 0 /\ n = 0) \/ (n = length /\ p = bp + off /\ bp <= p /\ p + n <= bp + bn).
+Proof.
+  intros Ho Hl Hbp Hbn Hsum. unfold anchor. cbn [fix_anchor cfg_final].
+  destruct (signed64 off <? 0) eqn:E1; cbn [orb]; [intros H; inversion H; auto|].
+  destruct (bn <? length) eqn:E2; cbn [orb]; [intros H; inversion H; auto|].
+  destruct (bn - length <? off) eqn:E3; [intros H; inversion H; auto|].
+  apply Z.ltb_ge in E2, E3. intros H. inversion H. subst. right.
+  assert (Hw : wrap (bp + off) = bp + off) by (apply wrap_small; lia).
+  rewrite Hw. lia.
+Qed.
+
+Lemma anchor_shipped_out_of_bounds :
+  exists off length bp bn p n, anchor cfg_shipped off length bp bn = (p, n) /\ 0 < n /\ bp + bn < p.
+Proof. exists 4098, 34, (region_base 0 + 35), 36. eexists. eexists. split; [vm_compute; reflexivity|]. split; vm_compute; reflexivity. Qed.
+
+(* string::sv(): a prefix of the string, empty for an empty string *)
+Lemma sv_in_bounds p n p' n' : 0 <= n < W64 -> sv_of cfg_final p n = (p', n') -> p' = p /\ 0 <= n' <= n.
+Proof.
+  intros Hn. unfold sv_of. cbn [fix_sv cfg_final]. destruct (n =? 0) eqn:E; cbn [andb].
+  - apply Z.eqb_eq in E. intros H. inversion H. lia.
+  - apply Z.eqb_neq in E. intros H. inversion H. subst. rewrite wrap_small by lia. lia.
+Qed.
+
+Lemma sv_shipped_empty_string p : sv_of cfg_shipped p 0 = (p, MAX64).
+Proof. reflexivity. Qed.
+
+(* ------------------------------------------------------------------------------
+   sorted_map::find never reads outside the index array and the base buffer
+   ------------------------------------------------------------------------------ *)
+
+Definition bytes_ok (bs : list byte) : Prop := Forall (fun b => 0 <= b < 256) bs.
+Definition mem_bytes (m : mem) : Prop := Forall bytes_ok m.
+
+Lemma le_dec_range bs : bytes_ok bs -> 0 <= le_dec bs < 256 ^ len bs.
+Proof.
+  induction bs as [|b r IH]; intros H.
+  - cbn. lia.
+  - inversion H; subst. specialize (IH H3). cbn [le_dec]. rewrite len_cons.
+    rewrite Z.pow_add_r by (pose proof (len_nonneg r); lia). change (256 ^ 1) with 256. lia.
+Qed.
+
+Lemma bytes_ok_firstn n bs : bytes_ok bs -> bytes_ok (firstn n bs).
+Proof. unfold bytes_ok. intros H. rewrite <- (firstn_skipn n bs) in H. apply Forall_app in H. tauto. Qed.
+Lemma bytes_ok_skipn n bs : bytes_ok bs -> bytes_ok (skipn n bs).
+Proof. unfold bytes_ok. intros H. rewrite <- (firstn_skipn n bs) in H. apply Forall_app in H. tauto. Qed.
+
+Lemma load_bytes_ok m a n bs : mem_bytes m -> load m a n = Ok bs -> bytes_ok bs.
+Proof.
+  unfold load. intros Hm. destruct (n <=? 0); [intros H; inversion H; constructor|].
+  destruct (a <? ARENA); [discriminate|].
+  destruct (nth_z m ((a - ARENA) / STRIDE)) as [r|] eqn:Hr; [|discriminate].
+  destruct ((a - ARENA) mod STRIDE + n <=? len r); [|discriminate].
+  intros H. inversion H. apply bytes_ok_firstn, bytes_ok_skipn.
+  apply nth_z_In in Hr. unfold mem_bytes in Hm. rewrite Forall_forall in Hm. auto.
+Qed.
+
+Lemma load64_ok m a : mem_bytes m -> validb (lens m) a 8 = true -> exists v, load64 m a = Ok v /\ 0 <= v < W64.
+Proof.
+  intros Hm H. destruct (load_valid _ _ _ H) as [bs Hbs]. unfold load64. rewrite Hbs. cbn [bind].
+  eexists. split; [reflexivity|].
+  pose proof (le_dec_range bs (load_bytes_ok _ _ _ _ Hm Hbs)) as R.
+  rewrite (load_len _ _ _ _ Hbs) in R. exact R.
+Qed.
+
+(* one comparison of lower_bound: the index entry at e and the base buffer are readable => no trap *)
+Lemma entry_lt_key_ok m e bp bn k :
+  mem_bytes m -> mem_wf m ->
+  validb (lens m) e 16 = true -> validb (lens m) bp bn = true ->
+  0 <= bp -> 0 <= bn -> bp + bn < W64 ->
+  exists b, entry_lt_key cfg_final m e bp bn k = Ok b.
+Proof.
+  intros Hb Hwf He Hbase Hbp Hbn Hsum. unfold entry_lt_key.
+  destruct (load64_ok m e Hb) as [koff [E1 R1]]; [apply (validb_sub' _ e 16); auto; lia|].
+  destruct (load64_ok m (e + 8) Hb) as [klen [E2 R2]]; [apply (validb_sub' _ e 16); auto; lia|].
+  rewrite E1, E2. cbn [bind].
+  destruct (anchor cfg_final koff klen bp bn) as [p n] eqn:EA.
+  destruct (sv_of cfg_final p n) as [sp sn] eqn:ES.
+  destruct (sv_of cfg_final 1 (len k)) as [k1 kn] eqn:EK.
+  destruct (anchor_in_bounds _ _ _ _ _ _ R1 R2 Hbp Hbn Hsum EA) as [[-> ->]|[-> [-> [Hlo Hhi]]]].
+  - (* empty string: nothing is read *)
+    cbn in ES. inversion ES. subst.
+    assert (Z.min 0 kn <= 0) by lia.
+    assert (HL : load m 0 (Z.min 0 kn) = Ok []) by (unfold load; destruct (Z.min 0 kn <=? 0) eqn:E; [reflexivity|apply Z.leb_gt in E; lia]).
+    rewrite HL. cbn [bind]. eauto.
+  - destruct (sv_in_bounds _ _ _ _ R2 ES) as [-> Hsn].
+    assert (Hv : validb (lens m) (bp + koff) (Z.min sn kn) = true).
+    { apply (validb_sub' _ bp bn); auto; lia. }
+    destruct (load_valid _ _ _ Hv) as [da Hda]. rewrite Hda. cbn [bind]. eauto.
+Qed.
+
+(* lower_bound only probes positions inside [0, cnt) *)
+Lemma lower_bound_ok fuel : forall m ip bp bn k first length cnt,
+  mem_bytes m -> mem_wf m ->
+  validb (lens m) ip (32 * cnt) = true -> validb (lens m) bp bn = true ->
+  0 <= bp -> 0 <= bn -> bp + bn < W64 ->
+  0 <= first -> first + length <= cnt ->
+  exists r, lower_bound cfg_final fuel m ip bp bn k first length = Ok r /\ first <= r <= first + Z.max 0 length.
+Proof.
+  induction fuel as [|fuel IH]; intros m ip bp bn k first length cnt Hb Hwf Hidx Hbase Hbp Hbn Hsum Hf Hl.
+  - cbn. eexists. split; [reflexivity|]. lia.
+  - cbn [lower_bound]. destruct (length <=? 0) eqn:E.
+    + eexists. split; [reflexivity|]. lia.
+    + apply Z.leb_gt in E.
+      assert (Hh : 0 <= length / 2 < length) by (split; [apply Z.div_pos; lia|apply Z.div_lt_upper_bound; lia]).
+      destruct (entry_lt_key_ok m (ip + 32 * (first + length / 2)) bp bn k Hb Hwf) as [b Hbk]; auto.
+      { apply (validb_sub' _ ip (32 * cnt)); auto; lia. }
+      rewrite Hbk. cbn [bind]. destruct b.
+      * destruct (IH m ip bp bn k (first + length / 2 + 1) (length - length / 2 - 1) cnt) as [r [Hr Hrr]]; auto; try lia.
+        eexists. split; [exact Hr|]. lia.
+      * destruct (IH m ip bp bn k first (length / 2) cnt) as [r [Hr Hrr]]; auto; try lia.
+        eexists. split; [exact Hr|]. lia.
+Qed.
+
+(* sorted_map::find on a deserialized map: the map slot, the index array it names and the base
+   buffer it names are readable => find reads nothing else, whatever the index contains *)
+Lemma map_find_in_bounds m a k ip inn bp bn :
+  mem_bytes m -> mem_wf m ->
+  validb (lens m) a 32 = true ->
+  load64 m a = Ok ip -> load64 m (a + 8) = Ok inn -> load64 m (a + 16) = Ok bp -> load64 m (a + 24) = Ok bn ->
+  validb (lens m) ip inn = true -> validb (lens m) bp bn = true ->
+  0 <= inn -> 0 <= bp -> 0 <= bn -> bp + bn < W64 ->
+  exists pos, map_find cfg_final m a k = Ok pos /\ 0 <= pos <= inn / 32.
+Proof.
+  intros Hb Hwf Ha E1 E2 E3 E4 Hidx Hbase Hinn Hbp Hbn Hsum. unfold map_find. rewrite E1, E2, E3, E4. cbn [bind].
+  assert (Hc : 0 <= inn / 32) by (apply Z.div_pos; lia).
+  destruct (lower_bound_ok (Z.to_nat (inn / 32) + 1) m ip bp bn k 0 (inn / 32) (inn / 32)) as [r [Hr Hrr]]; auto; try lia.
+  { pose proof (Z.mul_div_le inn 32 ltac:(lia)). apply (validb_sub' _ ip inn); auto; lia. }
+  exists r. split; [exact Hr|]. lia.
+Qed.
+
+(* a concrete deserialized map meeting every hypothesis of map_find_in_bounds:
+   region 0 = the sorted_map slot, region 1 = one index entry, region 2 = base buffer "k\0v\0" *)
+Definition ex_mem : mem :=
+  [ le_enc 8 (region_base 1) ++ le_enc 8 32 ++ le_enc 8 (region_base 2) ++ le_enc 8 4;
+    le_enc 8 0 ++ le_enc 8 2 ++ le_enc 8 2 ++ le_enc 8 2;
+    [107; 0; 118; 0] ].
+Example map_find_hyps_inhabited :
+  mem_bytes ex_mem /\ mem_wf ex_mem /\ validb (lens ex_mem) (region_base 0) 32 = true /\
+  load64 ex_mem (region_base 0) = Ok (region_base 1) /\ load64 ex_mem (region_base 0 + 8) = Ok 32 /\
+  load64 ex_mem (region_base 0 + 16) = Ok (region_base 2) /\ load64 ex_mem (region_base 0 + 24) = Ok 4 /\
+  validb (lens ex_mem) (region_base 1) 32 = true /\ validb (lens ex_mem) (region_base 2) 4 = true /\
+  map_find cfg_final ex_mem (region_base 0) [107; 0] = Ok 0 /\
+  map_find cfg_final ex_mem (region_base 0) [122; 0] = Ok 1.
+Proof.
+  split; [|split].
+  - unfold mem_bytes, bytes_ok, ex_mem. repeat constructor; vm_compute; intuition discriminate.
+  - unfold mem_wf. vm_compute. repeat constructor; discriminate.
+  - repeat split; vm_compute; reflexivity.
+Qed.
+
+(* ------------------------------------------------------------------------------
+   CheckedMessage: a message is only ever returned after the stored checksum has been
+   compared, and found equal, to the value recomputed by validate_checksum
+   (hstep = the per-byte step of the hash, uninterpreted)
+   ------------------------------------------------------------------------------ *)
+Section Checked.
+  Variable hstep : Z -> byte -> Z.
+  Variable c : cfg.
+
+  (* what validate_checksum compares: the stored word against the fold of hstep over
+     (a) the bytes of every remaining iovec element in order and (b) the body with the running
+     value in its checksum field *)
+  Lemma validate_checksum_spec m v t size okc m' :
+    validate_checksum hstep m v t size = Ok (okc, m') ->
+    exists stored m1 m2 h1 body,
+      load32 m t = Ok stored /\ store32 m t 0 = Ok m1 /\ hash_iov hstep m1 t (i_el v) = Ok m2 /\
+      load32 m2 t = Ok h1 /\ load m2 t size = Ok body /\
+      okc = (stored =? hash_ext hstep h1 body).
+  Proof.
+    unfold validate_checksum. intros H.
+    destruct (load32 m t) as [stored|] eqn:E0; cbn [bind] in H; [|discriminate].
+    destruct (store32 m t 0) as [m1|] eqn:E1; cbn [bind] in H; [|discriminate].
+    destruct (hash_iov hstep m1 t (i_el v)) as [m2|] eqn:E2; cbn [bind] in H; [|discriminate].
+    destruct (load32 m2 t) as [h1|] eqn:E3; cbn [bind] in H; [|discriminate].
+    destruct (load m2 t size) as [body|] eqn:E4; cbn [bind] in H; [|discriminate].
+    destruct (store32 m2 t (hash_ext hstep h1 body)) as [m3|] eqn:E5; cbn [bind] in H; [|discriminate].
+    inversion H. subst. exists stored, m1, m2, h1, body. repeat split; auto.
+  Qed.
+
+  Lemma checked_accept_requires_valid_checksum sh m v t st :
+    sh_checked sh = true ->
+    deserialize hstep c sh m v = Ok (t, st) -> t <> 0 ->
+    exists t1 m1 v1 m2,
+      ebc m v (sh_size sh) = Ok (t1, m1, v1) /\
+      validate_checksum hstep m1 v1 t1 (sh_size sh) = Ok (true, m2).
+  Proof.
+    intros Hc H Ht. unfold deserialize in H. rewrite Hc in H.
+    destruct (ebc m v (sh_size sh)) as [[[t1 m1] v1]|] eqn:E; cbn [bind] in H; [|discriminate].
+    destruct (t1 =? 0) eqn:Et; [inversion H; subst; congruence|].
+    destruct (validate_checksum hstep m1 v1 t1 (sh_size sh)) as [[okc m2]|] eqn:EV; cbn [bind] in H; [|discriminate].
+    destruct okc; cbn [negb] in H; [|inversion H; subst; congruence].
+    exists t1, m1, v1, m2. split; [reflexivity|exact EV].
+  Qed.
+End Checked.
+
+(* an altered checked message (one flipped bit under the checksum) is rejected by the executable
+   model with the real CRC32C step; the unaltered one is accepted *)
+Definition ex_checked_shape : shape := mkShape 24 true (FCons 8 FStr FNil).
+Definition ex_checked_good : list byte :=
+  [104; 105; 0] ++ [232; 252; 216; 109] ++ [7; 0; 0; 0] ++ le_enc 8 4660 ++ le_enc 8 3.
+Example checked_example_accept :
+  exists t st, deserialize crc32c_step cfg_final ex_checked_shape [ex_checked_good]
+                 (mkIov 4 [(region_base 0, 27)] 0 32) = Ok (t, st) /\ t = region_base 0 + 3.
+Proof. eexists. eexists. split; [vm_compute; reflexivity|reflexivity]. Qed.
+Example checked_example_reject :
+  exists st, deserialize crc32c_step cfg_final ex_checked_shape [ [104; 104; 0] ++ skipn 3 ex_checked_good ]
+                 (mkIov 4 [(region_base 0, 27)] 0 32) = Ok (0, st).
+Proof. eexists. vm_compute. reflexivity. Qed.
